@@ -9,7 +9,7 @@ Import ListNotations.
 Open Scope Z_scope.
 
 Record case : Set := mkCase {
-  k_role : IceRole; k_latching : bool; k_locals : list cand;
+  k_role : IceRole; k_latching : bool; k_mux : bool; k_locals : list cand;
   k_ops : list (list op); k_obs : list obs }.
 
 Definition addr_eq (a b : addr) : bool := addr_eqb a b.
@@ -47,8 +47,22 @@ Fixpoint run_groups (s : agent) (gs : list (list op)) : list obs :=
   | g :: rest => let '(s', out) := run_group s g [] in observe s' out :: run_groups s' rest
   end.
 
+(* the same through the shared-UDP demux (ice_udp_mux) *)
+Fixpoint mrun_group (ms : mux * agent) (g : list op) (acc : list out) : (mux * agent) * list out :=
+  match g with
+  | [] => (ms, acc)
+  | o :: rest => let '(ms', out) := mux_step ms o in mrun_group ms' rest (acc ++ out)
+  end.
+
+Fixpoint mrun_groups (ms : mux * agent) (gs : list (list op)) : list obs :=
+  match gs with
+  | [] => []
+  | g :: rest => let '(ms', out) := mrun_group ms g [] in observe (snd ms') out :: mrun_groups ms' rest
+  end.
+
 Definition model_out (c : case) : list obs :=
-  run_groups (init (k_role c) (k_latching c) (k_locals c)) (k_ops c).
+  let s0 := init (k_role c) (k_latching c) (k_locals c) in
+  if k_mux c then mrun_groups ([], s0) (k_ops c) else run_groups s0 (k_ops c).
 Definition check_case (c : case) : bool := list_eqb obs_eqb (model_out c) (k_obs c).
 
 Fixpoint bad_from (i : Z) (cs : list case) : list Z :=
